@@ -42,14 +42,20 @@ def verify(seed):
         os.makedirs(os.path.join(wt, "tests"), exist_ok=True)
         shutil.copy(os.path.join(seed, "demo.rs"), os.path.join(wt, "tests", "seed_demo.rs"))
         env = dict(os.environ, CARGO_NET_OFFLINE="true", RUST_BACKTRACE="0")
-        rc, out = sh(["cargo", "test", "--offline", "--test", "seed_demo"], cwd=wt, env=env, timeout=1800)
+        # Some demonstrations need a particular build (e.g. the portable code paths without BMI2); the
+        # repository's own suite is always run in its default configuration.
+        demo_env = dict(env)
+        if os.environ.get("SEED_DEMO_RUSTFLAGS"):
+            demo_env["RUSTFLAGS"] = os.environ["SEED_DEMO_RUSTFLAGS"]
+            res["demo_rustflags"] = os.environ["SEED_DEMO_RUSTFLAGS"]
+        rc, out = sh(["cargo", "test", "--offline", "--test", "seed_demo"], cwd=wt, env=demo_env, timeout=1800)
         res["demo_without_patch"] = "pass" if rc == 0 else "FAIL"
         rc, out = sh(["git", "apply", os.path.join(seed, "patch.diff")], cwd=wt)
         res["patch_applies"] = rc == 0
         if rc != 0:
             res["apply_output"] = out[-500:]
         else:
-            rc, out = sh(["cargo", "test", "--offline", "--test", "seed_demo"], cwd=wt, env=env, timeout=1800)
+            rc, out = sh(["cargo", "test", "--offline", "--test", "seed_demo"], cwd=wt, env=demo_env, timeout=1800)
             res["demo_with_patch"] = "fail" if rc != 0 else "PASSES (seed does not manifest)"
             res["demo_tail"] = out[-600:]
             os.remove(os.path.join(wt, "tests", "seed_demo.rs"))
